@@ -1590,3 +1590,53 @@ def canonical_regions(tree: ast.AST) -> int:
     if k[0]:
         ast.fix_missing_locations(tree)
     return k[0]
+
+
+# (xxv) `args=[a, b]` in a call (Thread, Process, Finalize, submit wrappers) is read as `args=(a, b)`.
+
+
+def canonical_args(tree: ast.AST) -> int:
+    k = 0
+    for c in ast.walk(tree):
+        if isinstance(c, ast.Call):
+            for kw in c.keywords:
+                if kw.arg == 'args' and isinstance(kw.value, ast.List) and not any(isinstance(e, ast.Starred) for e in kw.value.elts):
+                    kw.value = ast.copy_location(ast.Tuple(elts=kw.value.elts, ctx=ast.Load()), kw.value)
+                    k += 1
+    return k
+
+
+# (xxvi) `with contextlib.suppress(E, ...): B` (alone in its with statement, not bound) is read as `try: B` /
+# `except (E, ...): pass`; `list()`, `dict()`, `tuple()` without arguments as the empty displays.
+
+
+def canonical_suppress(tree: ast.AST) -> int:
+    k = [0]
+
+    class T(ast.NodeTransformer):
+        def visit_With(self, n):
+            self.generic_visit(n)
+            if len(n.items) == 1 and n.items[0].optional_vars is None:
+                c = n.items[0].context_expr
+                if isinstance(c, ast.Call) and not c.keywords and c.args and ((isinstance(c.func, ast.Attribute) and c.func.attr == 'suppress' and isinstance(c.func.value, ast.Name) and c.func.value.id == 'contextlib') or (isinstance(c.func, ast.Name) and c.func.id == 'suppress')):
+                    k[0] += 1
+                    typ = c.args[0] if len(c.args) == 1 else ast.Tuple(elts=list(c.args), ctx=ast.Load())
+                    h = ast.ExceptHandler(type=typ, name=None, body=[ast.copy_location(ast.Pass(), n)])
+                    return ast.copy_location(ast.Try(body=n.body, handlers=[ast.copy_location(h, n)], orelse=[], finalbody=[]), n)
+            return n
+
+        def visit_Call(self, n):
+            self.generic_visit(n)
+            if isinstance(n.func, ast.Name) and not n.args and not n.keywords and n.func.id in ('list', 'dict', 'tuple'):
+                k[0] += 1
+                if n.func.id == 'list':
+                    return ast.copy_location(ast.List(elts=[], ctx=ast.Load()), n)
+                if n.func.id == 'tuple':
+                    return ast.copy_location(ast.Tuple(elts=[], ctx=ast.Load()), n)
+                return ast.copy_location(ast.Dict(keys=[], values=[]), n)
+            return n
+
+    T().visit(tree)
+    if k[0]:
+        ast.fix_missing_locations(tree)
+    return k[0]
